@@ -301,6 +301,12 @@ class JSReplayer:
                     res['violated_clauses'].append('throws_if: contract says %s, real code %s' % ('throw' if must else 'no throw', 'threw ' + out.get('threw', '') if threw else 'returned'))
                 elif must and threw and not str(out.get('threw', '')).startswith('GVCRT:'):
                     res['violated_clauses'].append('throws_if: the contract asks for a run-time error ($throwRuntimeError), the real code threw a JavaScript exception: ' + str(out.get('threw', ''))[:200])
+            elif self.c.get('throws_when'):
+                # one-directional: when the condition holds on entry the real code must raise a run-time error
+                vals = [self.decide(ex.sev_bool(envpre, cl.expr)) for cl in self.c.get('throws_when')]
+                want = 'GVCRT:' + (self.c.get('throws_msg')[0].text.strip() if self.c.get('throws_msg') else '')
+                if any(v is True for v in vals) and not (threw and str(out.get('threw', '')).startswith(want)):
+                    res['violated_clauses'].append('throws_when: the condition holds for this input, the real code %s' % ('threw ' + str(out.get('threw', ''))[:120] if threw else 'returned'))
             elif threw:
                 res['violated_clauses'].append('unexpected throw: ' + out.get('threw', ''))
             if not threw:
